@@ -9,47 +9,64 @@ Ltac fin := repeat split; auto; try (simpl; lia); try discriminate.
 (* ------------------------------------------------------------------ scripted reader *)
 Lemma script_read_spec comb evs k bs e evs' :
   script_read comb evs k = ((bs, e), evs') ->
-  stream evs = bs ++ stream evs' /\ length bs <= k /\ (e = Some EEof -> evs' = []).
+  stream evs = bs ++ stream evs' /\ length bs <= k /\
+  (e = Some EEof -> neof evs = 0 -> evs' = []) /\ neof evs' <= neof evs.
 Proof.
-  destruct evs as [|[d| |] r]; simpl; intro E.
+  destruct evs as [|[d| | |] r]; simpl; intro E.
   - inversion E; subst. fin.
   - destruct (length d <=? k) eqn:L.
     + apply Nat.leb_le in L. destruct comb.
-      * destruct r as [|[d'| |] r']; inversion E; subst; simpl; repeat split; auto; try discriminate.
+      * destruct r as [|[d'| | |] r']; inversion E; subst; simpl; repeat split; auto; try discriminate; try lia.
       * inversion E; subst. fin.
     + inversion E; subst. simpl. rewrite app_assoc, firstn_skipn. repeat split; auto.
       * apply firstn_le_length.
       * discriminate.
   - inversion E; subst. fin.
   - inversion E; subst. fin.
+  - inversion E; subst. fin.
 Qed.
 
 Definition lim_none (s : base) : bool := match b_lim s with None => true | Some _ => false end.
 
+Lemma zlt_nat_spec k : forall n, if zlt_nat n k then Z.to_nat n < k else k <= Z.to_nat n.
+Proof.
+  induction k as [|k IH]; intro n; simpl; [lia|].
+  destruct (n <=? 0)%Z eqn:E; [lia|]. specialize (IH (n - 1)%Z).
+  destruct (zlt_nat (n - 1) k); lia.
+Qed.
+
+Lemma clamp_min k n : clamp k n = Nat.min k (Z.to_nat n).
+Proof. unfold clamp. pose proof (zlt_nat_spec k n). destruct (zlt_nat n k); lia. Qed.
+
 Lemma clamp_le k n : (0 < n)%Z -> clamp k n <= k /\ (Z.of_nat (clamp k n) <= n)%Z.
-Proof. unfold clamp. intro Hn. destruct (Z.of_nat k >? n)%Z eqn:E; lia. Qed.
+Proof. rewrite clamp_min. lia. Qed.
 
 Lemma base_read_spec comb s k bs e s' :
   base_read comb s k = ((bs, e), s') ->
   stream (b_evs s) = bs ++ stream (b_evs s') /\ length bs <= k /\
   lim_none s' = lim_none s /\
-  (lim_none s = true -> e = Some EEof -> b_evs s' = []).
+  (lim_none s = true -> neof (b_evs s) = 0 -> e = Some EEof -> b_evs s' = []) /\
+  neof (b_evs s') <= neof (b_evs s).
 Proof.
   unfold base_read, lim_none. destruct s as [evs [n|]]; simpl.
   - destruct (n <=? 0)%Z eqn:En.
     + intro E; inversion E; subst; simpl. fin.
     + destruct (script_read comb evs (clamp k n)) as [[bs0 e0] evs0] eqn:Es.
-      intro E; inversion E; subst; simpl. apply script_read_spec in Es as (A & B & C).
+      intro E; inversion E; subst; simpl. apply script_read_spec in Es as (A & B & C & D).
       assert (0 < n)%Z by lia. pose proof (clamp_le k n H).
       fin.
   - destruct (script_read comb evs k) as [[bs0 e0] evs0] eqn:Es.
-    intro E; inversion E; subst; simpl. apply script_read_spec in Es as (A & B & C).
+    intro E; inversion E; subst; simpl. apply script_read_spec in Es as (A & B & C & D).
     repeat split; auto.
 Qed.
 
 Section Proofs.
   Variable H : str -> str -> str.
   Variable comb : bool.
+
+  (* ghost: "the source script contains no Eof event" (instantiated below); only the
+     full-consumption clauses depend on it *)
+  Variable NE0 : Prop.
 
   Notation vr_read := (vr_read comb).
   Notation vr_verify := (vr_verify H comb).
@@ -60,7 +77,9 @@ Section Proofs.
     read_full tee_read fuel (b, h) want acc = ((acc', e), (b', h')) ->
     exists d, acc' = acc ++ d /\ h' = h ++ d /\ stream (b_evs b) = d ++ stream (b_evs b') /\
               lim_none b' = lim_none b /\
-              (e = Some EEof -> length acc' < want /\ (lim_none b = true -> b_evs b' = [])).
+              (e = Some EEof -> length acc' < want /\
+                                (lim_none b = true -> neof (b_evs b) = 0 -> b_evs b' = [])) /\
+              neof (b_evs b') <= neof (b_evs b).
   Proof.
     induction fuel as [|f IH]; intros b h want acc acc' e b' h'; simpl.
     - destruct (want <=? length acc) eqn:W; intro E; inversion E; subst;
@@ -69,28 +88,30 @@ Section Proofs.
       { intro E; inversion E; subst. exists []; rewrite !app_nil_r; repeat split; auto; discriminate. }
       unfold tee_read at 1. simpl.
       destruct (base_read comb b (want - length acc)) as [[bs e0] b1] eqn:Eb.
-      apply base_read_spec in Eb as (A & B & C & D).
+      apply base_read_spec in Eb as (A & B & C & D & D2).
       destruct e0 as [e0|].
       + destruct (want <=? length (acc ++ bs)) eqn:W2.
         { intro E; inversion E; subst. exists bs. repeat split; auto; discriminate. }
         apply Nat.leb_gt in W2.
         destruct ((0 <? length (acc ++ bs)) && is_eof e0) eqn:G; intro E; inversion E; subst;
           exists bs; repeat split; auto; try discriminate.
-      + intro E. apply IH in E as (d & E1 & E2 & E3 & E4 & E5).
+      + intro E. apply IH in E as (d & E1 & E2 & E3 & E4 & E5 & E6).
         exists (bs ++ d). subst acc' h'. rewrite A, E3, !app_assoc.
         split; [reflexivity|]. split; [reflexivity|]. split; [reflexivity|]. split; [congruence|].
-        intro Ee. destruct (E5 Ee) as [P Q]. split; [exact P|]. intro L. apply Q. congruence.
+        split; [|lia].
+        intro Ee. destruct (E5 Ee) as [P Q]. split; [exact P|]. intros L Nz. apply Q; [congruence|lia].
   Qed.
 
   Lemma ensure_eof_spec fuel b h ok b' h' :
     ensure_eof comb fuel (b, h) = (ok, (b', h')) ->
     lim_none b' = lim_none b /\
     exists d, h' = h ++ d /\ stream (b_evs b) = d ++ stream (b_evs b') /\
-      (ok = true -> d = [] /\ (lim_none b = true -> b_evs b' = [])).
+      (ok = true -> d = [] /\ (lim_none b = true -> neof (b_evs b) = 0 -> b_evs b' = [])) /\
+      neof (b_evs b') <= neof (b_evs b).
   Proof.
     unfold ensure_eof.
     destruct (read_full tee_read fuel (b, h) 1 []) as [[acc e] [b1 h1]] eqn:E.
-    intro X; inversion X; subst. apply read_full_tee in E as (d & E1 & E2 & E3 & E4 & E5).
+    intro X; inversion X; subst. apply read_full_tee in E as (d & E1 & E2 & E3 & E4 & E5 & E6).
     split; auto. exists d. repeat split; auto;
       destruct e as [[]|]; try discriminate; destruct (E5 eq_refl) as [L1 L2]; auto.
     simpl in E1. subst acc. destruct d; auto. simpl in L1; lia.
@@ -104,7 +125,8 @@ Section Proofs.
     v_verified v = false /\ (v_err v = None \/ v_err v = Some EEof) /\
     v_hashed v = out /\ v_N v = (sz - Z.of_nat (length out))%Z /\ (0 <= v_N v)%Z /\
     (v_err v = Some EEof -> (v_N v <= 0)%Z) /\
-    same S0 (out ++ stream (b_evs (v_base v))) /\ valid_digest dg = true.
+    same S0 (out ++ stream (b_evs (v_base v))) /\ valid_digest dg = true /\
+    (NE0 -> neof (b_evs (v_base v)) = 0).
 
   Definition dead (v : vrd) : Prop :=
     v_verified v = false /\ exists e, v_err v = Some e /\ e <> EEof.
@@ -112,7 +134,7 @@ Section Proofs.
   Definition done (S0 dg : str) (sz : Z) (v : vrd) (out : str) : Prop :=
     v_verified v = true /\ v_err v = Some EEof /\ Z.of_nat (length out) = sz /\
     verified H dg out = true /\ same S0 (out ++ stream (b_evs (v_base v))) /\
-    (lim_none (v_base v) = true -> b_evs (v_base v) = []) /\ valid_digest dg = true.
+    (lim_none (v_base v) = true -> NE0 -> b_evs (v_base v) = []) /\ valid_digest dg = true.
 
   Definition st3 S0 dg sz v out := live S0 dg sz v out \/ dead v \/ done S0 dg sz v out.
 
@@ -122,14 +144,15 @@ Section Proofs.
     (done S0 dg sz v out -> bs = [] /\ v' = v) /\ length bs <= k.
   Proof.
     intros [L|[D|F]] E; unfold Verify.vr_read in E.
-    - destruct L as (L1 & L2 & L3 & L4 & L5 & L6 & L7 & L8).
+    - destruct L as (L1 & L2 & L3 & L4 & L5 & L6 & L7 & L8 & L9).
       destruct L2 as [L2|L2]; rewrite L2 in E.
       + destruct (v_N v <=? 0)%Z eqn:EN.
         * inversion E; subst. rewrite app_nil_r. split; [|split; [reflexivity|split; [|simpl; lia]]].
-          -- left. unfold live, set_err; simpl. repeat split; auto. lia.
+          -- left. unfold live, set_err; simpl. repeat split; auto; lia.
           -- intros (F1 & _). congruence.
         * destruct (base_read comb (v_base v) (clamp k (v_N v))) as [[bs0 e0] b1] eqn:Eb.
-          apply base_read_spec in Eb as (A & B & C & D).
+          apply base_read_spec in Eb as (A & B & C & D & D2).
+          assert (L9' : NE0 -> neof (b_evs b1) = 0) by (intro Ne; specialize (L9 Ne); lia).
           assert (PN : (0 < v_N v)%Z) by lia. pose proof (clamp_le k _ PN) as [CL1 CL2].
           destruct e0 as [e0|]; inversion E; subst; clear E; simpl.
           -- split; [|split; [exact C|split; [|lia]]].
@@ -169,7 +192,7 @@ Section Proofs.
     (r = None -> done S0 dg sz v' out).
   Proof.
     intros [L|[D|F]] E; unfold Verify.vr_verify in E.
-    - destruct L as (L1 & L2 & L3 & L4 & L5 & L6 & L7 & L8). rewrite L1 in E.
+    - destruct L as (L1 & L2 & L3 & L4 & L5 & L6 & L7 & L8 & L9). rewrite L1 in E.
       destruct (ensure_eof comb fuel (v_base v, v_hashed v)) as [ok [b1 h1]] eqn:Ee.
       assert (P : (v_err v = None /\ r = Some EEarly /\ v' = v) \/
                   ((v_N v <= 0)%Z /\
@@ -185,7 +208,7 @@ Section Proofs.
       + subst. split; [|split; [reflexivity|discriminate]].
         left. unfold live. repeat split; auto.
       + 
-        apply ensure_eof_spec in Ee as (C & d & E1 & E2 & E3).
+        apply ensure_eof_spec in Ee as (C & d & E1 & E2 & E3 & E4).
         destruct ok; simpl in P.
         * destruct (E3 eq_refl) as [Dn Dl]. subst d. rewrite app_nil_r in E1. subst h1.
           simpl in E2. destruct (verified H dg (v_hashed v)) eqn:V; inversion P; subst; clear P; simpl.
@@ -193,7 +216,7 @@ Section Proofs.
              { unfold done; simpl. repeat split; auto.
                - lia.
                - unfold same in *. rewrite <- E2. exact L7.
-               - intro X. apply Dl. congruence. }
+               - intros X Ne. apply Dl; [congruence|exact (L9 Ne)]. }
              split; [right; right; exact DN|split; [exact C|intros _; exact DN]].
           -- split; [|split; [exact C|discriminate]].
              right; left. unfold dead, set_err; simpl. split; auto. eexists; split; [reflexivity|discriminate].
@@ -209,19 +232,19 @@ Section Proofs.
   Lemma done_facts S0 dg sz v out :
     done S0 dg sz v out ->
     Z.of_nat (length out) = sz /\ dg = digest_of H (alg_of dg) out /\ valid_digest dg = true /\
-    S0 = out ++ stream (b_evs (v_base v)) /\ (lim_none (v_base v) = true -> S0 = out).
+    S0 = out ++ stream (b_evs (v_base v)) /\ (lim_none (v_base v) = true -> NE0 -> S0 = out).
   Proof.
     intros (F1 & F2 & F3 & F4 & F5 & F6 & F7). unfold same in F5. repeat split; auto.
     - unfold verified in F4. apply str_eqb_spec in F4. exact F4.
-    - intro L. rewrite F5, (F6 L). simpl. apply app_nil_r.
+    - intros L Ne. rewrite F5, (F6 L Ne). simpl. apply app_nil_r.
   Qed.
 
   (* NewVerifyReader *)
   Lemma new_vr_st3 fixed src dg sz :
-    (fixed = true \/ (0 <= sz)%Z) ->
+    (fixed = true \/ (0 <= sz)%Z) -> (NE0 -> neof (b_evs src) = 0) ->
     st3 (stream (b_evs src)) dg sz (new_vr_gen fixed src dg sz) [].
   Proof.
-    intro Hs. unfold new_vr_gen. destruct (valid_digest dg) eqn:V; simpl.
+    intros Hs Hne. unfold new_vr_gen. destruct (valid_digest dg) eqn:V; simpl.
     - destruct (fixed && (sz <? 0)%Z) eqn:G.
       + right; left. split; auto. eexists; split; [reflexivity|discriminate].
       + left. unfold live; simpl. repeat split; auto; try lia; try discriminate.
@@ -256,15 +279,16 @@ Section Proofs.
   (* ---------------------------------------------------------------- ReadAll *)
   Notation matches_desc := (matches_desc H).
 
-  Lemma read_all_sound fixed fuel src dg sz buf v :
+  Lemma read_all_sound_g fixed fuel src dg sz buf v :
+    (NE0 -> neof (b_evs src) = 0) ->
     read_all H comb fixed fuel src dg sz = ((None, buf), v) ->
     matches_desc dg sz buf /\
     (exists rest, stream (b_evs src) = buf ++ rest) /\
-    (b_lim src = None -> stream (b_evs src) = buf).
+    (b_lim src = None -> NE0 -> stream (b_evs src) = buf).
   Proof.
-    unfold read_all. destruct (sz <? 0)%Z eqn:Z0; [discriminate|].
+    intro Hne. unfold read_all. destruct (sz <? 0)%Z eqn:Z0; [discriminate|].
     assert (S : st3 (stream (b_evs src)) dg sz (new_vr fixed src dg sz) []).
-    { apply new_vr_st3. right. lia. }
+    { apply new_vr_st3; auto. right. lia. }
     destruct (read_full vr_read fuel (new_vr fixed src dg sz) (Z.to_nat sz) []) as [[b0 e] v0] eqn:Er.
     destruct (read_full_vr _ _ _ _ _ _ _ _ _ _ _ S Er) as (d & E1 & E2 & E3). simpl in E1, E2. subst b0.
     destruct e as [e|]; [discriminate|].
@@ -273,7 +297,7 @@ Section Proofs.
     destruct (vr_verify_st3 _ _ _ _ _ _ _ _ E2 Ev) as (_ & C & Dn).
     apply done_facts in Dn as (F1 & F2 & F3 & F4 & F5); auto.
     split; [split; auto|]. split; [eexists; exact F4|].
-    intro L. apply F5. rewrite C, E3. unfold new_vr. rewrite new_vr_lim. unfold lim_none. rewrite L. reflexivity.
+    intros L Ne. apply F5; auto. rewrite C, E3. unfold new_vr. rewrite new_vr_lim. unfold lim_none. rewrite L. reflexivity.
   Qed.
 
   (* ---------------------------------------------------------------- CopyBuffer *)
@@ -291,15 +315,16 @@ Section Proofs.
       + intro E. destruct (IH _ _ _ _ _ S1 E) as (E2 & E3). split; auto. congruence.
   Qed.
 
-  Lemma copy_buffer_sound fuel src bufsz dg sz out v :
+  Lemma copy_buffer_sound_g fuel src bufsz dg sz out v :
+    (NE0 -> neof (b_evs src) = 0) ->
     copy_buffer H comb true fuel src bufsz dg sz = ((None, out), v) ->
     matches_desc dg sz out /\
     (exists rest, stream (b_evs src) = out ++ rest) /\
-    (b_lim src = None -> stream (b_evs src) = out).
+    (b_lim src = None -> NE0 -> stream (b_evs src) = out).
   Proof.
-    unfold copy_buffer.
+    intro Hne. unfold copy_buffer.
     assert (S : st3 (stream (b_evs src)) dg sz (new_vr true src dg sz) []).
-    { apply new_vr_st3. left; reflexivity. }
+    { apply new_vr_st3; auto. }
     destruct (copy_loop comb fuel (new_vr true src dg sz) bufsz []) as [[e o] v0] eqn:Ec.
     destruct (copy_loop_st3 _ _ _ _ _ _ _ _ _ _ S Ec) as (E2 & E3).
     destruct e as [e|]; [discriminate|].
@@ -308,7 +333,7 @@ Section Proofs.
     destruct (vr_verify_st3 _ _ _ _ _ _ _ _ E2 Ev) as (_ & C & Dn).
     apply done_facts in Dn as (F1 & F2 & F3 & F4 & F5); auto.
     split; [split; auto|]. split; [eexists; exact F4|].
-    intro L. apply F5. rewrite C, E3. unfold new_vr. rewrite new_vr_lim. unfold lim_none. rewrite L. reflexivity.
+    intros L Ne. apply F5; auto. rewrite C, E3. unfold new_vr. rewrite new_vr_lim. unfold lim_none. rewrite L. reflexivity.
   Qed.
 
 
@@ -327,28 +352,65 @@ Section Proofs.
       intro E. destruct (IH _ _ _ _ S1 E). split; auto. congruence.
   Qed.
 
-  Lemma verify_reader_sound fuel src dg sz ops v out v' :
+  Lemma verify_reader_sound_g fuel src dg sz ops v out v' :
+    (NE0 -> neof (b_evs src) = 0) ->
     vr_run H comb fuel dg ops (new_vr true src dg sz) [] = (v, out) ->
     vr_verify fuel dg v = (None, v') ->
     matches_desc dg sz out /\
     (exists rest, stream (b_evs src) = out ++ rest) /\
-    (b_lim src = None -> stream (b_evs src) = out) /\
+    (b_lim src = None -> NE0 -> stream (b_evs src) = out) /\
     (* afterwards the reader is at EOF and Verify stays nil *)
     (forall k, vr_read v' k = (([], Some EEof), v')) /\ vr_verify fuel dg v' = (None, v').
   Proof.
-    intros Er Ev.
+    intros Hne Er Ev.
     assert (S : st3 (stream (b_evs src)) dg sz (new_vr true src dg sz) []).
-    { apply new_vr_st3. left; reflexivity. }
+    { apply new_vr_st3; auto. }
     destruct (vr_run_st3 _ _ _ _ _ _ _ _ _ S Er) as (S1 & C1).
     destruct (vr_verify_st3 _ _ _ _ _ _ _ _ S1 Ev) as (_ & C & Dn).
     specialize (Dn eq_refl). pose proof Dn as (G1 & G2 & _).
     apply done_facts in Dn as (F1 & F2 & F3 & F4 & F5).
     split; [split; auto|]. split; [eexists; exact F4|]. split.
-    - intro L. apply F5. rewrite C, C1. unfold new_vr. rewrite new_vr_lim. unfold lim_none. rewrite L. reflexivity.
+    - intros L Ne. apply F5; auto. rewrite C, C1. unfold new_vr. rewrite new_vr_lim. unfold lim_none. rewrite L. reflexivity.
     - split.
       + intro k. unfold Verify.vr_read. rewrite G2. reflexivity.
       + unfold Verify.vr_verify. rewrite G1. reflexivity.
   Qed.
+
+End Proofs.
+
+(* the ghost instantiated: "no Eof event in the source script" *)
+Section Sound.
+  Variable H : str -> str -> str.
+  Variable comb : bool.
+
+  Lemma read_all_sound fixed fuel src dg sz buf v :
+    read_all H comb fixed fuel src dg sz = ((None, buf), v) ->
+    matches_desc H dg sz buf /\
+    (exists rest, stream (b_evs src) = buf ++ rest) /\
+    (b_lim src = None -> neof (b_evs src) = 0 -> stream (b_evs src) = buf).
+  Proof. apply (read_all_sound_g H comb (neof (b_evs src) = 0)). auto. Qed.
+
+  Lemma copy_buffer_sound fuel src bufsz dg sz out v :
+    copy_buffer H comb true fuel src bufsz dg sz = ((None, out), v) ->
+    matches_desc H dg sz out /\
+    (exists rest, stream (b_evs src) = out ++ rest) /\
+    (b_lim src = None -> neof (b_evs src) = 0 -> stream (b_evs src) = out).
+  Proof. apply (copy_buffer_sound_g H comb (neof (b_evs src) = 0)). auto. Qed.
+
+  Lemma verify_reader_sound fuel src dg sz ops v out v' :
+    vr_run H comb fuel dg ops (new_vr true src dg sz) [] = (v, out) ->
+    vr_verify H comb fuel dg v = (None, v') ->
+    matches_desc H dg sz out /\
+    (exists rest, stream (b_evs src) = out ++ rest) /\
+    (b_lim src = None -> neof (b_evs src) = 0 -> stream (b_evs src) = out) /\
+    (forall k, vr_read comb v' k = (([], Some EEof), v')) /\ vr_verify H comb fuel dg v' = (None, v').
+  Proof. apply (verify_reader_sound_g H comb (neof (b_evs src) = 0)). auto. Qed.
+End Sound.
+
+Section Stores.
+  Variable H : str -> str -> str.
+  Variable comb : bool.
+  Notation matches_desc := (matches_desc H).
 
   (* ---------------------------------------------------------------- descriptors, assoc lists *)
   Lemma desc_eqb_spec x y : desc_eqb x y = true <-> x = y.
@@ -394,7 +456,7 @@ Section Proofs.
     (e = None /\ mem_get m d = None /\
      exists buf, m' = (d, buf) :: m /\ desc_ok d buf /\
                  (exists rest, stream (b_evs src) = buf ++ rest) /\
-                 (b_lim src = None -> stream (b_evs src) = buf))
+                 (b_lim src = None -> neof (b_evs src) = 0 -> stream (b_evs src) = buf))
     \/ (e <> None /\ m' = m).
   Proof.
     unfold mem_push. destruct (mem_get m d) eqn:G.
@@ -439,7 +501,7 @@ Section Proofs.
     (e = None /\ oci_get s (d_dg d) = None /\
      exists out, s' = (d_dg d, out) :: s /\ desc_ok d out /\
                  (exists rest, stream (b_evs src) = out ++ rest) /\
-                 (b_lim src = None -> stream (b_evs src) = out))
+                 (b_lim src = None -> neof (b_evs src) = 0 -> stream (b_evs src) = out))
     \/ (e <> None /\ s' = s).
   Proof.
     unfold oci_push. destruct (negb (valid_digest (d_dg d))).
@@ -474,7 +536,7 @@ Section Proofs.
   Qed.
 
   Lemma file_push_spec fuel s name path d evs e s' :
-    file_ok s -> path_free s path -> file_push H comb true fuel s name path d evs = (e, s') ->
+    file_ok s -> (name <> [] -> path_free s path) -> file_push H comb true fuel s name path d evs = (e, s') ->
     file_ok s' /\
     (e = None ->
        exists bs, file_fetch s' name d = Some bs /\ file_exists s' name d = true /\
@@ -486,7 +548,7 @@ Section Proofs.
     (e <> None -> forall name' d', file_exists s' name' d' = file_exists s name' d' /\
                                    file_fetch s' name' d' = file_fetch s name' d').
   Proof.
-    intros [Ok1 Ok2] Pf. unfold file_push. destruct name as [|c name0].
+    intros [Ok1 Ok2] Pf0. unfold file_push. destruct name as [|c name0].
     - (* fallback: LimitedStorage over cas.Memory *)
       destruct (limited_push (mem_push H comb true fuel) defaultFallbackPushSizeLimit (f_fb s) d evs) as [e0 fb'] eqn:El.
       intro E; inversion E; subst; clear E.
@@ -505,6 +567,7 @@ Section Proofs.
              destruct A as (A1 & A2 & A3). repeat split; auto. exists rest; exact B.
         * split; [split; auto|]. split; [congruence|]. intros _ name' d'. destruct s; auto.
     - remember (c :: name0) as name eqn:Hn.
+      assert (Pf : path_free s path) by (apply Pf0; rewrite Hn; discriminate).
       destruct (name_in name (f_names s)) eqn:Nin.
       { intro E; inversion E; subst e s'. split; [split; auto|]. split; [discriminate|]. auto. }
       destruct (copy_buffer H comb true fuel (mkBase evs None) file_bufsz (d_dg d) (d_sz d)) as [[[e0|] out] v] eqn:Ec;
@@ -544,7 +607,7 @@ Section Proofs.
     - destruct (Ok1 _ _ Gp) as (bs' & Fb & Db & Vb). intro X. rewrite Fb in X. inversion X; subst. auto.
     - intro G. apply Ok2 in G. destruct G as (A1 & A2 & A3). auto.
   Qed.
-End Proofs.
+End Stores.
 
 (* ------------------------------------------------------------------ histories *)
 Section HistoryProofs.
@@ -644,12 +707,12 @@ Section HistoryProofs.
     cinv st -> cstep H st i n = Some st' ->
     nth_error (c_thr st) i = Some t -> (exists w, t_pc t = PIngest w [] None) ->
     exists w, oci_get (c_blobs st') (d_dg (t_d t)) = Some w /\
-              matches_desc H (d_dg (t_d t)) (d_sz (t_d t)) w /\ stream (t_evs t) = w.
+              matches_desc H (d_dg (t_d t)) (d_sz (t_d t)) w /\ (neof (t_evs t) = 0 -> stream (t_evs t) = w).
   Proof.
     intros [Ob Ft] Es Ei [w Epc]. unfold cstep in Es. rewrite Ei, Epc in Es. inversion Es; subst; clear Es.
     pose proof (Forall_nth_error _ _ _ _ Ft Ei) as Pt. unfold thr_ok in Pt. rewrite Epc in Pt.
     destruct Pt as [v Ec]. rewrite app_nil_r in Ec. apply copy_buffer_sound in Ec as (A & _ & C).
-    exists w. simpl. rewrite str_eqb_refl. split; [reflexivity|]. split; [exact A|]. apply C. reflexivity.
+    exists w. simpl. rewrite str_eqb_refl. split; [reflexivity|]. split; [exact A|]. intro Ne. apply C; auto.
   Qed.
 
   (* ---------------------------------------------------------------- the pre-fix behaviour *)
@@ -707,24 +770,25 @@ Section Rejects.
   (* the reasons for which (reader, descriptor) is not "exactly the bytes the
      descriptor names": malformed / unsupported digest, negative size, fewer than
      Size bytes in the reader, first Size bytes hashing to something else, and --
-     when the reader is not cut by a LimitReader -- bytes beyond Size *)
+     when the reader is not cut by a LimitReader and never answers EOF before its end --
+     bytes beyond Size *)
   Definition bad_input (src : base) (dg : str) (sz : Z) : Prop :=
     valid_digest dg = false \/ (sz < 0)%Z \/
     (Z.of_nat (length (stream (b_evs src))) < sz)%Z \/
     dg <> digest_of H (alg_of dg) (firstn (Z.to_nat sz) (stream (b_evs src))) \/
-    (b_lim src = None /\ (sz < Z.of_nat (length (stream (b_evs src))))%Z).
+    (b_lim src = None /\ neof (b_evs src) = 0 /\ (sz < Z.of_nat (length (stream (b_evs src))))%Z).
 
   Lemma good_not_bad src dg sz out :
     matches_desc H dg sz out -> (exists rest, stream (b_evs src) = out ++ rest) ->
-    (b_lim src = None -> stream (b_evs src) = out) -> ~ bad_input src dg sz.
+    (b_lim src = None -> neof (b_evs src) = 0 -> stream (b_evs src) = out) -> ~ bad_input src dg sz.
   Proof.
-    intros (A1 & A2 & A3) (rest & B) C [X|[X|[X|[X|[X1 X2]]]]].
+    intros (A1 & A2 & A3) (rest & B) C [X|[X|[X|[X|[X1 [X3 X2]]]]]].
     - congruence.
     - lia.
     - rewrite B, app_length in X. lia.
     - apply X. rewrite B. replace (Z.to_nat sz) with (length out) by lia.
       rewrite firstn_app_exact. exact A2.
-    - rewrite (C X1) in X2. lia.
+    - rewrite (C X1 X3) in X2. lia.
   Qed.
 
   Lemma read_all_rejects comb fixed fuel src dg sz buf v :
@@ -786,16 +850,17 @@ Section FailingReader.
   Lemma script_read_nfail evs k bs e evs' :
     script_read comb evs k = ((bs, e), evs') -> quiet e -> nfail evs' = nfail evs.
   Proof.
-    destruct evs as [|[d| |] r]; simpl; intros E Q.
+    destruct evs as [|[d| | |] r]; simpl; intros E Q.
     - inversion E; subst. reflexivity.
     - destruct (length d <=? k).
       + destruct comb.
-        * destruct r as [|[d'| |] r']; inversion E; subst; simpl; auto.
+        * destruct r as [|[d'| | |] r']; inversion E; subst; simpl; auto.
           destruct Q as [Q|Q]; discriminate.
         * inversion E; subst. reflexivity.
       + inversion E; subst. reflexivity.
     - inversion E; subst. reflexivity.
     - inversion E; subst. destruct Q as [Q|Q]; discriminate.
+    - inversion E; subst. reflexivity.
   Qed.
 
   Lemma base_read_nfail s k bs e s' :
@@ -828,17 +893,19 @@ Section FailingReader.
 
   (* while the VerifyReader is not in an error state no failure has been consumed *)
   Definition inv2 (NF : nat) (v : vrd) : Prop :=
-    v_verified v = false /\ (quiet (v_err v) -> nfail (b_evs (v_base v)) = NF).
+    v_verified v = false /\ neof (b_evs (v_base v)) = 0 /\ (quiet (v_err v) -> nfail (b_evs (v_base v)) = NF).
 
   Lemma vr_read_inv2 NF v k bs e v' :
     inv2 NF v -> vr_read comb v k = ((bs, e), v') -> inv2 NF v'.
   Proof.
-    intros [I1 I2] E. unfold vr_read in E. destruct (v_err v) as [e0|] eqn:Ee.
-    - inversion E; subst. split; auto. rewrite Ee. exact I2.
+    intros (I1 & I0 & I2) E. unfold vr_read in E. destruct (v_err v) as [e0|] eqn:Ee.
+    - inversion E; subst. split; auto. split; auto. rewrite Ee. exact I2.
     - destruct (v_N v <=? 0)%Z.
-      + inversion E; subst. split; auto. simpl. intros _. apply I2. left; reflexivity.
+      + inversion E; subst. split; auto. split; auto. simpl. intros _. apply I2. left; reflexivity.
       + destruct (base_read comb (v_base v) (clamp k (v_N v))) as [[bs0 e1] b1] eqn:Eb.
-        destruct e1 as [e1|]; inversion E; subst; clear E; (split; [exact I1|]); simpl.
+        pose proof (base_read_spec _ _ _ _ _ _ Eb) as (_ & _ & _ & _ & Dz).
+        assert (Z1 : neof (b_evs b1) = 0) by lia.
+        destruct e1 as [e1|]; inversion E; subst; clear E; (split; [exact I1|split; [exact Z1|]]); simpl.
         * intro Q. rewrite <- (I2 (or_introl eq_refl)). eapply base_read_nfail; eauto.
           destruct e1; simpl in Q; try (destruct Q as [Q|Q]; discriminate). right; reflexivity.
         * intros _. rewrite <- (I2 (or_introl eq_refl)). eapply base_read_nfail; eauto. left; reflexivity.
@@ -871,7 +938,7 @@ Section FailingReader.
   Lemma vr_verify_inv2 NF fuel dg v v' :
     inv2 NF v -> lim_none (v_base v) = true -> vr_verify H comb fuel dg v = (None, v') -> NF = 0.
   Proof.
-    intros [I1 I2] L. unfold vr_verify. rewrite I1.
+    intros (I1 & I0 & I2) L. unfold vr_verify. rewrite I1.
     destruct (ensure_eof comb fuel (v_base v, v_hashed v)) as [ok [b1 h1]] eqn:Ee.
     assert (P : quiet (v_err v) ->
                 (if negb ok then (Some ETrailing, set_err (mkVr b1 (v_N v) h1 (v_err v) false) ETrailing)
@@ -879,33 +946,34 @@ Section FailingReader.
                       else (Some EMismatch, set_err (mkVr b1 (v_N v) h1 (v_err v) false) EMismatch)) = (None, v') ->
                 NF = 0).
     { intros Q X. destruct ok; [|discriminate]. rewrite <- (I2 Q).
-      pose proof Ee as Ee'. apply ensure_eof_spec in Ee' as (_ & d & _ & _ & E3).
+      pose proof Ee as Ee'. apply ensure_eof_spec in Ee' as (_ & d & _ & _ & E3 & _).
       destruct (E3 eq_refl) as [_ Z]. unfold ensure_eof in Ee.
       destruct (read_full (tee_read comb) fuel (v_base v, v_hashed v) 1 []) as [[acc e] [b2 h2]] eqn:Er.
       inversion Ee; subst. destruct e as [[]|]; try discriminate.
-      apply read_full_tee_nfail in Er. rewrite <- Er, (Z L). reflexivity. }
+      apply read_full_tee_nfail in Er. rewrite <- Er, (Z L I0). reflexivity. }
     destruct (v_err v) as [e0|] eqn:Ee0.
     - destruct e0; try discriminate. apply P. right; reflexivity.
     - destruct (v_N v >? 0)%Z; [discriminate|]. apply P. left; reflexivity.
   Qed.
 
-  Lemma new_vr_inv2 fixed src dg sz : inv2 (nfail (b_evs src)) (new_vr_gen fixed src dg sz).
+  Lemma new_vr_inv2 fixed src dg sz : neof (b_evs src) = 0 -> inv2 (nfail (b_evs src)) (new_vr_gen fixed src dg sz).
   Proof.
-    unfold new_vr_gen. destruct (negb (valid_digest dg)); [split; auto|].
+    intro Z0. unfold new_vr_gen. destruct (negb (valid_digest dg)); [split; auto|].
     destruct (fixed && (sz <? 0)%Z); split; auto.
   Qed.
 
   Lemma read_all_failing fixed fuel evs dg sz buf v :
+    neof evs = 0 ->
     read_all H comb fixed fuel (mkBase evs None) dg sz = ((None, buf), v) -> nfail evs = 0.
   Proof.
-    unfold read_all. destruct (sz <? 0)%Z eqn:Z0; [discriminate|].
-    pose proof (new_vr_inv2 fixed (mkBase evs None) dg sz) as I. simpl in I.
+    intro Ne. unfold read_all. destruct (sz <? 0)%Z eqn:Z0; [discriminate|].
+    pose proof (new_vr_inv2 fixed (mkBase evs None) dg sz Ne) as I. simpl in I.
     destruct (read_full (vr_read comb) fuel (new_vr fixed (mkBase evs None) dg sz) (Z.to_nat sz) []) as [[b0 e] v0] eqn:Er.
     pose proof (read_full_inv2 _ _ _ _ _ _ _ _ I Er) as I0.
     assert (L : lim_none (v_base v0) = true).
-    { assert (S : st3 H (stream evs) dg sz (new_vr fixed (mkBase evs None) dg sz) []).
-      { apply (new_vr_st3 H fixed (mkBase evs None)). right. lia. }
-      destruct (read_full_vr H comb _ _ _ _ _ _ _ _ _ _ _ S Er) as (d & _ & _ & E3).
+    { assert (S : st3 H False (stream evs) dg sz (new_vr fixed (mkBase evs None) dg sz) []).
+      { apply (new_vr_st3 H False fixed (mkBase evs None)); [right; lia|intros []]. }
+      destruct (read_full_vr H comb False _ _ _ _ _ _ _ _ _ _ _ S Er) as (d & _ & _ & E3).
       rewrite E3. unfold new_vr. rewrite new_vr_lim. reflexivity. }
     destruct e as [e|]; [discriminate|].
     destruct (vr_verify H comb fuel dg v0) as [r v1] eqn:Ev.
@@ -913,16 +981,17 @@ Section FailingReader.
   Qed.
 
   Lemma copy_buffer_failing fuel evs bufsz dg sz out v :
+    neof evs = 0 ->
     copy_buffer H comb true fuel (mkBase evs None) bufsz dg sz = ((None, out), v) -> nfail evs = 0.
   Proof.
-    unfold copy_buffer.
-    pose proof (new_vr_inv2 true (mkBase evs None) dg sz) as I. simpl in I.
+    intro Ne. unfold copy_buffer.
+    pose proof (new_vr_inv2 true (mkBase evs None) dg sz Ne) as I. simpl in I.
     destruct (copy_loop comb fuel (new_vr true (mkBase evs None) dg sz) bufsz []) as [[e o] v0] eqn:Ec.
     pose proof (copy_loop_inv2 _ _ _ _ _ _ _ _ I Ec) as I0.
     assert (L : lim_none (v_base v0) = true).
-    { assert (S : st3 H (stream evs) dg sz (new_vr true (mkBase evs None) dg sz) []).
-      { apply (new_vr_st3 H true (mkBase evs None)). left; reflexivity. }
-      destruct (copy_loop_st3 H comb _ _ _ _ _ _ _ _ _ _ S Ec) as (_ & E3).
+    { assert (S : st3 H False (stream evs) dg sz (new_vr true (mkBase evs None) dg sz) []).
+      { apply (new_vr_st3 H False true (mkBase evs None)); [left; reflexivity|intros []]. }
+      destruct (copy_loop_st3 H comb False _ _ _ _ _ _ _ _ _ _ S Ec) as (_ & E3).
       rewrite E3. unfold new_vr. rewrite new_vr_lim. reflexivity. }
     destruct e as [e|]; [discriminate|].
     destruct (vr_verify H comb fuel dg v0) as [r v1] eqn:Ev.
@@ -935,24 +1004,25 @@ Section FailingReader.
     intros [X|X]; [subst e; simpl; discriminate|destruct e; simpl; auto].
   Qed.
 
-  (* a reader that reports an error at any point before it is exhausted *)
+  (* a reader that reports an error at any point before it is exhausted (and does not
+     answer EOF before the end of its script: what lies behind an EOF is never read) *)
   Lemma failing_reader_rejected fuel evs d :
-    In Fail evs ->
+    In Fail evs -> neof evs = 0 ->
     (forall fixed buf v, read_all H comb fixed fuel (mkBase evs None) (d_dg d) (d_sz d) <> ((None, buf), v)) /\
     (forall bufsz out v, copy_buffer H comb true fuel (mkBase evs None) bufsz (d_dg d) (d_sz d) <> ((None, out), v)) /\
     (forall fixed m e m', mem_push H comb fixed fuel m d (mkBase evs None) = (e, m') -> e <> None /\ m' = m) /\
     (forall s e s', oci_push H comb true fuel s d (mkBase evs None) = (e, s') -> e <> None /\ s' = s) /\
     (forall s name path e s', name <> [] -> file_push H comb true fuel s name path d evs = (e, s') -> e <> None).
   Proof.
-    intro F. apply nfail_in in F. split; [|split; [|split; [|split]]].
-    - intros fixed buf v E. apply read_all_failing in E. auto.
-    - intros bufsz out v E. apply copy_buffer_failing in E. auto.
+    intros F Ne. apply nfail_in in F. split; [|split; [|split; [|split]]].
+    - intros fixed buf v E. apply F. eapply read_all_failing; eauto.
+    - intros bufsz out v E. apply F. eapply copy_buffer_failing; eauto.
     - intros fixed m e m'. unfold mem_push. destruct (mem_get m d).
       + intro E; inversion E; subst. split; [discriminate|reflexivity].
       + destruct (read_all H comb fixed fuel (mkBase evs None) (d_dg d) (d_sz d)) as [[[e0|] buf] v] eqn:Er;
           intro E; inversion E; subst.
         * split; [discriminate|reflexivity].
-        * apply read_all_failing in Er. contradiction.
+        * exfalso. apply F. eapply read_all_failing; eauto.
     - intros s e s'. unfold oci_push. destruct (negb (valid_digest (d_dg d))).
       { intro E; inversion E; subst. split; [discriminate|reflexivity]. }
       destruct (oci_get s (d_dg d)).
@@ -960,12 +1030,12 @@ Section FailingReader.
       + destruct (copy_buffer H comb true fuel (mkBase evs None) oci_bufsz (d_dg d) (d_sz d)) as [[[e0|] out] v] eqn:Ec;
           intro E; inversion E; subst.
         * split; [discriminate|reflexivity].
-        * apply copy_buffer_failing in Ec. contradiction.
+        * exfalso. apply F. eapply copy_buffer_failing; eauto.
     - intros s name path e s' Nn. unfold file_push. destruct name as [|c n0]; [congruence|].
       destruct (name_in (c :: n0) (f_names s)); [intro E; inversion E; discriminate|].
       destruct (copy_buffer H comb true fuel (mkBase evs None) file_bufsz (d_dg d) (d_sz d)) as [[[e0|] out] v] eqn:Ec;
         intro E; inversion E; subst; [discriminate|].
-      apply copy_buffer_failing in Ec. contradiction.
+      exfalso. apply F. eapply copy_buffer_failing; eauto.
   Qed.
 End FailingReader.
 
@@ -974,68 +1044,59 @@ Section EarlyFailure.
   Variable H : str -> str -> str.
   Variable comb : bool.
 
+  (* a Read that returns no error delivers bytes counted by [avail]; one that returns EOF
+     delivers at most what was available (what lies behind an EOF does not count) *)
   Lemma script_read_avail evs k bs e evs' :
-    script_read comb evs k = ((bs, e), evs') -> quiet e -> avail evs = length bs + avail evs'.
+    script_read comb evs k = ((bs, e), evs') ->
+    (e = None -> avail evs = length bs + avail evs') /\ (e = Some EEof -> length bs <= avail evs).
   Proof.
-    destruct evs as [|[d| |] r]; simpl; intros E Q.
-    - inversion E; subst. reflexivity.
+    destruct evs as [|[d| | |] r]; simpl; intros E.
+    - inversion E; subst. split; [discriminate|simpl; lia].
     - destruct (length d <=? k) eqn:L.
       + destruct comb.
-        * destruct r as [|[d'| |] r']; inversion E; subst; simpl; auto.
-          destruct Q as [Q|Q]; discriminate.
-        * inversion E; subst. reflexivity.
-      + apply Nat.leb_gt in L. inversion E; subst. simpl.
+        * destruct r as [|[d'| | |] r']; inversion E; subst; simpl; split; try discriminate; intros _; lia.
+        * inversion E; subst. split; [reflexivity|discriminate].
+      + apply Nat.leb_gt in L. inversion E; subst. simpl. split; [|discriminate]. intros _.
         rewrite firstn_length_le, skipn_length by lia. lia.
-    - inversion E; subst. reflexivity.
-    - inversion E; subst. destruct Q as [Q|Q]; discriminate.
+    - inversion E; subst. split; [reflexivity|discriminate].
+    - inversion E; subst. split; discriminate.
+    - inversion E; subst. split; [discriminate|simpl; lia].
   Qed.
 
   Lemma base_read_avail s k bs e s' :
-    base_read comb s k = ((bs, e), s') -> quiet e -> avail (b_evs s) = length bs + avail (b_evs s').
+    base_read comb s k = ((bs, e), s') ->
+    (e = None -> avail (b_evs s) = length bs + avail (b_evs s')) /\ (e = Some EEof -> length bs <= avail (b_evs s)).
   Proof.
     unfold base_read. destruct s as [evs [n|]]; simpl.
     - destruct (n <=? 0)%Z.
-      + intro E; inversion E; subst. reflexivity.
+      + intro E; inversion E; subst. split; [discriminate|simpl; lia].
       + destruct (script_read comb evs (clamp k n)) as [[bs0 e0] evs0] eqn:Es.
         intro E; inversion E; subst; simpl. eapply script_read_avail; eauto.
     - destruct (script_read comb evs k) as [[bs0 e0] evs0] eqn:Es.
       intro E; inversion E; subst; simpl. eapply script_read_avail; eauto.
   Qed.
 
-  Lemma read_full_tee_avail fuel : forall b h want acc acc' b' h',
-    read_full (tee_read comb) fuel (b, h) want acc = ((acc', Some EEof), (b', h')) ->
-    length acc + avail (b_evs b) = length acc' + avail (b_evs b').
-  Proof.
-    induction fuel as [|f IH]; intros b h want acc acc' b' h'; simpl.
-    - destruct (want <=? length acc); intro E; inversion E.
-    - destruct (want <=? length acc); [intro E; inversion E|].
-      unfold tee_read at 1. simpl.
-      destruct (base_read comb b (want - length acc)) as [[bs e0] b1] eqn:Eb.
-      destruct e0 as [e0|].
-      + destruct (want <=? length (acc ++ bs)); [intro E; inversion E|].
-        destruct ((0 <? length (acc ++ bs)) && is_eof e0); intro E; inversion E; subst.
-        rewrite app_length. erewrite (base_read_avail b); eauto; [lia|right; reflexivity].
-      + intro E. apply IH in E. rewrite <- E, app_length.
-        erewrite (base_read_avail b); eauto; [lia|left; reflexivity].
-  Qed.
-
-  (* while the VerifyReader is not in an error state: bytes handed out + bytes still
-     deliverable before the first failure = what the script could deliver at the start *)
+  (* while the VerifyReader has seen no error: bytes handed out + bytes still deliverable
+     before the first failure / EOF = what the script could deliver at the start; once it
+     has seen EOF: at most that much was handed out *)
   Definition inv3 (A : nat) (v : vrd) (out : str) : Prop :=
-    v_verified v = false /\ (quiet (v_err v) -> length out + avail (b_evs (v_base v)) = A).
+    v_verified v = false /\ (v_err v = None -> length out + avail (b_evs (v_base v)) = A) /\
+    (quiet (v_err v) -> length out <= A).
 
   Lemma vr_read_inv3 A v out k bs e v' :
     inv3 A v out -> vr_read comb v k = ((bs, e), v') -> inv3 A v' (out ++ bs).
   Proof.
-    intros [I1 I2] E. unfold vr_read in E. destruct (v_err v) as [e0|] eqn:Ee.
-    - inversion E; subst. rewrite app_nil_r. split; auto. rewrite Ee. exact I2.
-    - destruct (v_N v <=? 0)%Z.
-      + inversion E; subst. rewrite app_nil_r. split; auto. simpl. intros _. apply I2. left; reflexivity.
+    intros (I1 & I2 & I3) E. unfold vr_read in E. destruct (v_err v) as [e0|] eqn:Ee.
+    - inversion E; subst. rewrite app_nil_r. split; auto. rewrite Ee. split; auto.
+    - specialize (I2 eq_refl). destruct (v_N v <=? 0)%Z.
+      + inversion E; subst. rewrite app_nil_r. split; auto. simpl. split; [discriminate|]. intros _. lia.
       + destruct (base_read comb (v_base v) (clamp k (v_N v))) as [[bs0 e1] b1] eqn:Eb.
+        apply base_read_avail in Eb as [Bn Be].
         destruct e1 as [e1|]; inversion E; subst; clear E; (split; [exact I1|]); simpl; rewrite app_length.
-        * intro Q. rewrite <- (I2 (or_introl eq_refl)). erewrite (base_read_avail (v_base v)); eauto; [lia|].
-          destruct e1; simpl in Q; try (destruct Q as [Q|Q]; discriminate). right; reflexivity.
-        * intros _. rewrite <- (I2 (or_introl eq_refl)). erewrite (base_read_avail (v_base v)); eauto; [lia|left; reflexivity].
+        * split; [destruct (is_eof e1 && _); discriminate|].
+          intro Q. destruct e1; simpl in Q; try (destruct Q as [Q|Q]; discriminate).
+          specialize (Be eq_refl). lia.
+        * specialize (Bn eq_refl). split; intros _; lia.
   Qed.
 
   Lemma read_full_inv3 A fuel : forall v out want acc acc' e v',
@@ -1067,19 +1128,18 @@ Section EarlyFailure.
   Lemma vr_verify_inv3 A fuel dg v out v' :
     inv3 A v out -> vr_verify H comb fuel dg v = (None, v') -> length out <= A.
   Proof.
-    intros [I1 I2]. unfold vr_verify. rewrite I1.
+    intros (I1 & I2 & I3). unfold vr_verify. rewrite I1.
     destruct (ensure_eof comb fuel (v_base v, v_hashed v)) as [ok [b1 h1]] eqn:Ee.
-    assert (P : quiet (v_err v) -> length out <= A).
-    { intro Q. rewrite <- (I2 Q). lia. }
     destruct (v_err v) as [e0|] eqn:Ee0.
-    - destruct e0; try discriminate. intros _. apply P. right; reflexivity.
-    - destruct (v_N v >? 0)%Z; [discriminate|]. intros _. apply P. left; reflexivity.
+    - destruct e0; try discriminate. intros _. apply I3. right; reflexivity.
+    - destruct (v_N v >? 0)%Z; [discriminate|]. intros _. apply I3. left; reflexivity.
   Qed.
 
   Lemma new_vr_inv3 fixed src dg sz : inv3 (avail (b_evs src)) (new_vr_gen fixed src dg sz) [].
   Proof.
-    unfold new_vr_gen. destruct (negb (valid_digest dg)); [split; auto|].
-    destruct (fixed && (sz <? 0)%Z); split; auto.
+    unfold new_vr_gen, inv3, quiet.
+    destruct (negb (valid_digest dg)); [simpl; repeat split; auto; try discriminate; intros [X|X]; discriminate|].
+    destruct (fixed && (sz <? 0)%Z); simpl; repeat split; auto; try discriminate; try lia; intros [X|X]; discriminate.
   Qed.
 
   Lemma read_all_early fixed fuel src dg sz buf v :
